@@ -23,6 +23,16 @@ Theorem C05_comes_back_only_by_add : forall s e x,
   match e with AddCommit a _ => x = a | Start _ _ => replicas s = [] | _ => False end.
 Proof. exact enter_only_by_add_or_start. Qed.
 
+(** the failure of a minority does not surface: if the writers that do not fail are a strict majority
+    and one RW replica is among them, the write in flight is acknowledged *)
+Theorem C05_minority_failure_not_surfaced : forall s wid off len fs x,
+  struct_ok s -> ro s = false -> avail s = true -> 0 <= off -> off + len <= csize s ->
+  majority_ok (length (writers s)) (length (io_errs (writers s) fs KWrite KWriteAp)) = true ->
+  aget (replicas s) x = Some RW -> ~ In x (io_errs (writers s) fs KWrite KWriteAp) ->
+  snd (do_write s wid off len fs) = ROk.
+Proof. exact write_minority_failure_acked. Qed.
+
 Print Assumptions C05_failed_replicas_isolated.
+Print Assumptions C05_minority_failure_not_surfaced.
 Print Assumptions C05_removed_is_gone.
 Print Assumptions C05_comes_back_only_by_add.
